@@ -22,11 +22,14 @@
      wrap_many e e'     e' is e with any number of redundant pairs of parentheses added (closure of wrapE true);
      select rows holds  the rows of a table a predicate selects; val r n: the value of atom n on row r - an
                         arbitrary function (in the check: what the code answers for the atom alone on that row,
-                        whatever it does with nil / unset fields). *)
+                        whatever it does with nil / unset fields);
+     or_grouping l e    e is the chain  p1 or ... or pk  of the clauses l = [p1..pk] written with any of its consecutive
+                        sub-chains in parentheses, to any depth (and_grouping: the same for `and`); the clauses are
+                        arbitrary primaries - in the check real comparisons of one operator shape on different symbols. *)
 From Coq Require Import List NArith Bool.
 From Storage Require Import Base.Bytes Lang.Tokens Lang.Lexer Lang.BoolGrammar Lang.Listener Lang.BoolSurface
   Lang.BoolGrammarProofs Lang.LexerProofs Lang.C12Proofs Lang.Regex Lang.LexerFull Lang.WordOps Lang.WordOpsProofs Lang.WordOpsLexProofs
-  Lang.BoolRows Lang.C12W3Proofs.
+  Lang.BoolRows Lang.C12W3Proofs Lang.ChainGroupings Lang.C12W5Proofs.
 Import ListNotations.
 
 (* every skeleton, in every token spelling, is accepted and evaluates to its or-of-ands meaning:
@@ -224,3 +227,35 @@ Theorem not_partitions_rows : forall (Row : Type) (val : Row -> str -> bool) e t
   xorb (eval b (val r)) (eval bp (val r)) = true.
 Proof. exact not_partition_lemma. Qed.
 Print Assumptions not_partitions_rows.
+
+(* a chain of one connective, in EVERY grouping of its clauses, evaluates to the disjunction (conjunction) of the values
+   the clauses have on their own, and selects the rows on which some clause (every clause) holds - whatever the clauses
+   are: there is no way of writing an or-chain in which a clause answers for anything but itself *)
+Theorem chain_in_any_grouping : forall (Row : Type) (rows : list Row) (val : Row -> str -> bool) l e ts,
+  spells_filter e ts ->
+  exists b, compile fixed_prec ts = Some b /\
+    (or_grouping l e ->
+       (forall rho, eval b rho = existsb (fun p => semP p rho) l) /\
+       select rows (fun r => eval b (val r)) = select rows (fun r => existsb (fun p => semP p (val r)) l)) /\
+    (and_grouping l e ->
+       (forall rho, eval b rho = forallb (fun p => semP p rho) l) /\
+       select rows (fun r => eval b (val r)) = select rows (fun r => forallb (fun p => semP p (val r)) l)).
+Proof. exact chain_grouping_lemma. Qed.
+Print Assumptions chain_in_any_grouping.
+
+(* two groupings of the same clauses evaluate alike *)
+Theorem chain_regrouping_irrelevant : forall l e1 e2 ts1 ts2 b1 b2 rho,
+  (or_grouping l e1 /\ or_grouping l e2) \/ (and_grouping l e1 /\ and_grouping l e2) ->
+  spells_filter e1 ts1 -> spells_filter e2 ts2 ->
+  compile fixed_prec ts1 = Some b1 -> compile fixed_prec ts2 = Some b2 ->
+  eval b1 rho = eval b2 rho.
+Proof. exact regrouping_lemma. Qed.
+Print Assumptions chain_regrouping_irrelevant.
+
+(* a row on which one clause of an or-chain holds is selected; a row on which one clause of an and-chain fails is not *)
+Theorem one_clause_decides : forall (Row : Type) (val : Row -> str -> bool) l e ts b p r,
+  spells_filter e ts -> compile fixed_prec ts = Some b -> In p l ->
+  (or_grouping l e -> semP p (val r) = true -> eval b (val r) = true) /\
+  (and_grouping l e -> semP p (val r) = false -> eval b (val r) = false).
+Proof. exact one_clause_lemma. Qed.
+Print Assumptions one_clause_decides.
